@@ -338,6 +338,11 @@ func (cc *grpcClientConn) Send(msg any) error {
 	// response side would otherwise wait for a request that is never made -
 	// forever, since nothing watches the context of a call that hasn't begun.
 	cc.duplexCall.ensureRequestMade()
+	if err := cc.duplexCall.ctx.Err(); err != nil {
+		// Whatever else is wrong with this message, the call is over.
+		cc.duplexCall.SetError(err)
+		return wrapIfContextError(err)
+	}
 	if err := cc.marshaler.Marshal(msg); err != nil {
 		return err
 	}
